@@ -234,7 +234,9 @@ def wrap_paragraph_lines(
 
     # Walk through words, breaking them into lines.
     for word in words:
-        word_width = len_fn(word)
+        # A literal backslash is escaped if it ends up at the end of a line: keep a column.
+        reserve = int(is_markdown and (len(word) - len(word.rstrip("\\"))) % 2 == 1)
+        word_width = len_fn(word) + reserve
 
         space_width = 1 if current_line else 0
         if current_width + word_width + space_width <= width:
@@ -256,7 +258,7 @@ def wrap_paragraph_lines(
                 escaped_word = markdown_escape_word(word)
 
             # Recalculate width after potential escaping for the new line.
-            escaped_word_width = len_fn(escaped_word)
+            escaped_word_width = len_fn(escaped_word) + reserve
 
             # Start the new line with the (potentially escaped) word
             current_line = [escaped_word]
